@@ -288,6 +288,20 @@ Verdict propC10(Choices &c, Ctx &ctx) {
     break;
   }
   }
+  // sheer size: a valid grammar with up to 130,000 small groups (each one becomes an internal rule, so the
+  // rule table, its generated names and the rule numbering are driven far past anything hand-written)
+  bool manyRules = target == 0 && !raw && c.coin(4);
+  if (manyRules) {
+    static const long NS[] = {1000, 30000, 99990, 100001, 100400, 130000};
+    long n = NS[c.weighted({2, 2, 2, 3, 3, 1})] + (long)c.range(0, 12);
+    input = "#JSGF V1.0; grammar big; public <s> = ";
+    const char *grp = (const char *[]){"[go] ", "(go) ", "go* ", "ten+ "}[c.range(0, 3)];
+    for (long i = 0; i < n; ++i) input += grp;
+    input += ";";
+    nmut = 0;
+    log = " many-rules(" + std::to_string(n) + " x '" + grp + "')";
+    ctx.label("input:many-rules");
+  }
   if (raw) {
     input = rawBytes(c);
     log = " raw-bytes";
@@ -303,6 +317,18 @@ Verdict propC10(Choices &c, Ctx &ctx) {
   switch (target) {
   case 0: {
     CStr s(input);
+    if (manyRules) {
+      // parse, count the rules, free: compiling 100,000 optional groups is not what this case is about
+      jsgf_t *j = jsgf_parse_string(s.p, NULL);
+      if (j) {
+        accepted = true;
+        long nr = 0;
+        for (jsgf_rule_iter_t *it = jsgf_rule_iter(j); it; it = jsgf_rule_iter_next(it)) ++nr;
+        ctx.labelIf(nr > 100000, "input:more-than-100000-rules");
+        jsgf_grammar_free(j);
+      }
+      break;
+    }
     jsgf_t *j = jsgf_parse_string(s.p, NULL);
     if (j) {
       accepted = true;
